@@ -123,6 +123,17 @@ func oracle(stream, in, outp string) {
 			if got := orPermissive(field(res, "NS")); got != wantNs {
 				fail("namespace-mode", "GetNamespaceMutualTLSMode", fmt.Sprintf("real %s spec %s", got, wantNs))
 			}
+			{
+				// GetGlobalMutualTLSMode: the mesh policy's mode (UNSET = PERMISSIVE), UNKNOWN without mesh policy
+				lv := specLevels(s.pas, s.root, s.root, nil)
+				wantG := "UNKNOWN"
+				if lv.mesh != nil {
+					wantG = lv.meshMode
+				}
+				if got := field(res, "G"); got != wantG {
+					fail("namespace-mode", "GetGlobalMutualTLSMode", fmt.Sprintf("real %s spec %s", got, wantG))
+				}
+			}
 			if got := field(res, "BE"); got != wantNs {
 				fail("namespace-mode", "BestEffortInferServiceMTLSMode", fmt.Sprintf("real %s spec %s", got, wantNs))
 			}
@@ -185,7 +196,7 @@ func oracle(stream, in, outp string) {
 				continue
 			}
 			s.clientE2EOracle(f, res, fail)
-		case "il", "ils", "ilh":
+		case "il", "ils", "ilh", "ilp":
 			res := s.apply(f)
 			if res == "crash" || res == "bad-op" || res == "no-virtual-inbound" {
 				fail("never-crashes", "crash", strings.Join(f, " ")+" -> "+res)
